@@ -210,7 +210,18 @@ class CompileNoise(Harness):
             comp = DensityMatrixCompiler()
             init = dm_state(spec["rho"].copy(), 2)
         comp.noise_simulation = bool(self.switch)
-        out = comp.compile(circuit, initial_state=init)
+        if self.backend == "dm" and not S.symbolic:
+            # concrete replay: the model's Hermitian matrix need not be PSD (the checked identity is linear and holds
+            # for all Hermitian matrices); the constructor's is_psd gate is opened exactly as in the symbolic run
+            import graphiq.backends.density_matrix.functions as _dmf
+            saved = _dmf.is_psd
+            _dmf.is_psd = lambda *a, **k: True
+            try:
+                out = comp.compile(circuit, initial_state=init)
+            finally:
+                _dmf.is_psd = saved
+        else:
+            out = comp.compile(circuit, initial_state=init)
         seq = []
         gate = ("H", e) if self.gate == "H" else ("CNOT", e, ph)
         noisy = self.switch and self.noise == "pauli" and self.pauli != "I"
